@@ -94,18 +94,25 @@ def run(ctx):
         raise vlib.Inconclusive("MCService printed no types")
     ctx.cov["model_types"] = len(types)
     types.sort(key=lambda t: json.dumps(t, sort_keys=True))
-    if ctx.quick():
-        leaf = [t for t in types if t["k"] not in ("list", "set", "map")]
-        rest = [t for t in types if t not in leaf]
-        types = leaf + rng.sample(rest, min(len(rest), 330))
+    leaf = [t for t in types if t["k"] not in ("list", "set", "map")]
+    rest = [t for t in types if t not in leaf] if ctx.quick() else [t for t in types if t["k"] in ("list", "set", "map")]
+    # thorough: the depth-3 universe has ~70k type expressions; one program with all of them does not finish
+    # (80 MB of IDL, > 8 GB in the generator): a seeded sample in programs of 1500 types each
+    picked = rng.sample(rest, min(len(rest), 330 if ctx.quick() else 7200))
+    chunks = [leaf + picked[:330]] + [picked[i:i + 1500] for i in range(330, len(picked), 1500)]
+    ctx.cov["types_in_programs"] = sum(len(c) for c in chunks)
     for d in support:
         d.setdefault("pkg", "svc")
     support.append({"name": "LocalErr", "kind": "exception", "items": [], "target": {"k": "i32"}, "pkg": "svc",
                     "fields": [{"id": 1, "name": "code", "t": {"k": "i32"}, "req": False, "def": {"k": "none"}}]})
-    text, funcs, helpers, structs = build_program(types, [d for d in support if d["name"] != "LocalErr"])
-    files = {"svc.thrift": text, "base.thrift": BASE_THRIFT}
-    cases = [{"id": "recurse", "files": files, "root": "svc.thrift", "norecurse": False, "funcs": funcs, "S": support},
-             {"id": "norecurse", "files": files, "root": "svc.thrift", "norecurse": True, "funcs": funcs[:40], "S": support}]
+    cases = []
+    for k, chunk in enumerate(chunks):
+        ctext, cfuncs, chelpers, cstructs = build_program(chunk, [d for d in support if d["name"] != "LocalErr"])
+        cfiles = {"svc.thrift": ctext, "base.thrift": BASE_THRIFT}
+        cases.append({"id": "recurse-%d" % k, "files": cfiles, "root": "svc.thrift", "norecurse": False, "funcs": cfuncs, "S": support})
+        if k == 0:
+            text, funcs, helpers, structs, files = ctext, cfuncs, chelpers, cstructs, cfiles
+            cases.append({"id": "norecurse", "files": files, "root": "svc.thrift", "norecurse": True, "funcs": funcs[:40], "S": support})
     cf, of = os.path.join(ctx.dir("c19"), "cases.ndjson"), os.path.join(ctx.dir("c19"), "obs.ndjson")
     vlib.write_ndjson(cf, cases)
     vlib.run([drv, "c19", "-cases", cf, "-out", of], timeout=3000, check=True)
